@@ -156,10 +156,9 @@ SetMode(mode) == [Effect(OpModeOwn(mode), OpModeFree) EXCEPT !.last = ROpMode]
 \* ------------------------------------------------------------------ RF frequency (DS 4.1.4: Frf = Fstep * Frf(23:0), Fstep = 32 MHz / 2^19)
 \* the reference (sx127x_convert_freq_in_hz_to_pll_step) rounds to the nearest step with the scaled step
 \* 32e6 / 2^11 = 15625 Hz:  word = (f div 15625) * 2^8 + round((f mod 15625) * 2^8 / 15625)
-PllWord127(f) ==
-    LET int == f \div 15625
-        frac == f % 15625
-    IN int * 256 + ((frac * 256 + 7812) \div 15625)
+\* (the text lives in PllCore.tla so that Apalache - PllApa.tla - checks the very same definition for every frequency)
+Pll127 == INSTANCE PllCore
+PllWord127(f) == Pll127!Word127(f)
 \* the other reading of the data sheet formula: truncate f / Fstep
 PllWord127Trunc(f) ==
     LET int == f \div 15625
